@@ -4,7 +4,15 @@ package main
 // VERIF_SEED, so a disagreement replays exactly.
 type RNG struct{ s uint64 }
 
-func NewRNG(seed uint64) *RNG { return &RNG{s: seed*0x9E3779B97F4A7C15 + 0x1234567} }
+// The seed is hashed (one splitmix64 step over a differently-keyed state):
+// seeding with a multiple of the step constant would make seed k's stream a
+// mere shift of seed 1's, and generators with a variable number of draws per
+// case re-synchronise after a few cases.
+func NewRNG(seed uint64) *RNG {
+	r := &RNG{s: seed ^ 0xD1B54A32D192ED03}
+	r.s = r.U64() ^ (seed * 0xA24BAED4963EE407)
+	return r
+}
 
 func (r *RNG) U64() uint64 {
 	r.s += 0x9E3779B97F4A7C15
